@@ -159,7 +159,7 @@ def checked(fa, s):
     # the (awaited) Result is itself the function's result: `return f().await;` / tail expression —
     # the caller sees the error, nothing else of this function runs after it
     for bb, pos, t in ret_assigns(fa):
-        if s in call_root_bb(t) and all(r[0] == "call" and r[1] == s for r in roots(t)):
+        if s in call_root_bb(t) and all((r[0] == "call" and r[1] == s) or is_agg(r, "Err") for r in roots(t)):
             after = fa.reach(bb, include_src=True)
             if not any(fa.blocks[x].term["k"] == "call" and x != s and not _is_cleanup_call(fa.blocks[x].term) for x in after if x != bb or pos is not None):
                 return {"branch": None, "ok": bb, "err": bb, "how": "returned"}
